@@ -75,7 +75,10 @@ def check_case(case):
     for reify in (True, False):
         what = "parse(reify=%s, color=%r) of %s" % (reify, cc, xml)
         try:
-            d = svg.SVG.parse(io.StringIO(xml), reify=reify, color=cc)
+            ccarg = svg.Color(cc) if k % 2 else cc          # the caller's colour as a Color object or as text
+            d = svg.SVG.parse(io.StringIO(xml), reify=reify, color=ccarg)
+            if k % 2 and (ccarg.value != svg.Color(cc).value):
+                dis.append({"clause": "CallerColourChanged", "detail": "%s: the caller's Color(%r) is %r after the parse" % (what, cc, ccarg)})
             shapes = [e for e in d.elements() if isinstance(e, svg.Shape)]
         except engine.CaseTimeout:
             raise
